@@ -718,7 +718,17 @@ pub fn generate(check: &str, tier: &str, seed: u64) -> Scenario {
                 sim.latency_pm = *cr.pick(&[100, 500]);
                 sim.max_latency_us = *cr.pick(&[100, 20_000]);
             }
-            Scenario { check: check.to_string(), seed, sim, body: Body::Store(StoreScn { cfg, keys, threads, fault: None, fault_reads: false, max_crash_points: 0, extra: 0 }) }
+            // a quarter of the runs with timer-driven merging fail one call (or a short episode) of
+            // the background worker's own threads
+            let mut fault = None;
+            {
+                let mut fr = Rng::stream(seed, "background-fault");
+                if cfg.merge_always && fr.one_in(4) {
+                    let extra = *fr.pick(&[0u8, 0, 1, 3]);
+                    fault = Some((1 + fr.below(14), libc::EIO, 0x08 | (extra << 4)));
+                }
+            }
+            Scenario { check: check.to_string(), seed, sim, body: Body::Store(StoreScn { cfg, keys, threads, fault, fault_reads: false, max_crash_points: 0, extra: 0 }) }
         }
         "C06" => {
             let nkeys = cr.range(2, 6) as usize;
